@@ -273,6 +273,17 @@ func extractHub() {
 			lookups = append(lookups, src(c))
 		}
 		set("cancel_lookup", strings.Join(lookups, " | "))
+		// order of the effects: the entry leaves the pool only after the refund has been minted and routed
+		var order []string
+		for _, n := range collect(fd.Body, func(n ast.Node) bool { _, ok := n.(*ast.CallExpr); return ok }) {
+			s := src(n.(*ast.CallExpr).Fun)
+			for _, want := range []string{"MintCoins", "SendCoinsFromModuleToAccount", "createSendToExternal", "SetTxStatus", "deleteUnbatchedSendToExternal", "setUnbatchedSendToExternal", "BurnCoins"} {
+				if strings.HasSuffix(s, "."+want) {
+					order = append(order, want)
+				}
+			}
+		}
+		set("cancel_call_order", strings.Join(order, ","))
 	} else {
 		miss("cancel_conds")
 	}
@@ -524,6 +535,14 @@ func extractHub() {
 		}
 		sort.Strings(l)
 		set("genesis_imported", strings.Join(l, ","))
+		// what the observed external height (and the other counters) are set from
+		var hs []string
+		for _, want := range []string{"SetLastObservedExternalBlockHeight", "setLastObservedEventNonce", "setLastOutgoingBatchNonce", "setOutgoingSequence"} {
+			for _, c := range callsTo(fd.Body, want) {
+				hs = append(hs, src(c))
+			}
+		}
+		set("genesis_import_counters", strings.Join(hs, " | "))
 	} else {
 		miss("genesis_imported")
 	}
